@@ -272,6 +272,7 @@ type c20Op struct {
 	Render bool   `json:"render,omitempty"`
 	Item   bool   `json:"item,omitempty"`      // x['name'] instead of x.name (maps only)
 	Sand   bool   `json:"sandboxed,omitempty"` // the rendered lookup happens inside a sandboxed include
+	Def    bool   `json:"def,omitempty"`       // the render asks `x.name is defined` (answer compared with the cold-cache answer); touches the same cache
 	Pair   bool   `json:"pair,omitempty"`      // one render looks the name up on a struct pointer AND on a pointer to its first (embedded) field: same address, different types
 }
 
@@ -282,6 +283,7 @@ type c20Sc struct {
 	JumpBack   int                `json:"jump_back_at"`
 	Tasks      [][]c20Op          `json:"tasks"`
 	PreemptDen int                `json:"preempt_den"`
+	Share      bool               `json:"share_templates,omitempty"` // tasks render the SAME parsed templates (one syntax tree per distinct lookup text)
 	Explicit   bool               `json:"explicit,omitempty"`
 	Schedule   []simrt.SchedEntry `json:"schedule,omitempty"`
 }
@@ -319,6 +321,7 @@ func (propC20) Gen(seed uint64, ex map[string]bool) interface{} {
 	sc.JumpBack = r.N(60)
 	nt := pick(r, []int{1, 1, 2, 2, 3})
 	sc.PreemptDen = pick(r, []int{0, 4, 16, 64})
+	sc.Share = nt > 1 && r.P(60)
 	nh := len(handObjects())
 	pickObj := func() int {
 		if r.P(60) {
@@ -348,6 +351,9 @@ func (propC20) Gen(seed uint64, ex map[string]bool) interface{} {
 					op := c20Op{Obj: pickObj(), Name: pick(r, c20Names), Render: r.P(15), Item: r.P(30)}
 					if op.Render && r.P(35) {
 						op.Sand = true
+					}
+					if r.P(12) {
+						op.Render, op.Def, op.Item = true, true, false
 					}
 					if r.P(8) {
 						op = c20Op{Obj: 5, Name: pick(r, []string{"Title", "ID", "Level", "Name", "Describe", "Hello", "zzz"}), Render: true, Pair: true}
@@ -419,6 +425,9 @@ func (propC20) Run(scI interface{}) *Outcome {
 	}
 	// templates are parsed before the tasks start: concurrent parsing is C02's subject, not C20's
 	tpls := make([][]*twig.Template, nt)
+	coldDef := map[[2]int]string{}
+	skipDef := map[[2]int]bool{}
+	shared := map[string]*twig.Template{}
 	for t := 0; t < nt; t++ {
 		tpls[t] = make([]*twig.Template, len(sc.Tasks[t]))
 		for i, op := range sc.Tasks[t] {
@@ -429,6 +438,9 @@ func (propC20) Run(scI interface{}) *Outcome {
 					acc = "x['" + op.Name + "']"
 				}
 				body := "{{ " + acc + "|json_encode }}\x00{{ v|json_encode }}"
+				if op.Def {
+					body = "{{ x." + op.Name + " is defined ? 'D' : 'U' }}"
+				}
 				if op.Pair {
 					body = "{{ x." + op.Name + "|json_encode }}{{ y." + op.Name + "|json_encode }}{{ z." + op.Name + "|json_encode }}\x00{{ v|json_encode }}{{ vy|json_encode }}{{ vz|json_encode }}"
 				}
@@ -438,7 +450,30 @@ func (propC20) Run(scI interface{}) *Outcome {
 					engines[t].RegisterString(inner, body)
 					body = "{% include '" + inner + "' sandboxed %}"
 				}
-				tpls[t][i], _ = engines[t].ParseTemplate(body)
+				if sc.Share && !op.Sand {
+					if shared[body] == nil {
+						shared[body], _ = engines[0].ParseTemplate(body)
+					}
+					tpls[t][i] = shared[body]
+				} else {
+					tpls[t][i], _ = engines[t].ParseTemplate(body)
+				}
+				if op.Def && tpls[t][i] != nil {
+					// the history-free answer: the same question asked with an empty attribute cache
+					hot := twig.VerifSwapGlobals(nil)
+					func() {
+						defer func() {
+							if recover() != nil {
+								// the engine answers the question by calling the method; a method of the harness's own
+								// objects that cannot stand a nil embedded receiver is not the cache's business
+								skipDef[[2]int{t, i}] = true
+							}
+						}()
+						coldDef[[2]int{t, i}], _ = tpls[t][i].Render(map[string]interface{}{"x": o})
+					}()
+					twig.VerifSwapGlobals(hot)
+					twig.VerifSetAttrCacheMax(sc.MaxSize)
+				}
 			}
 		}
 	}
@@ -454,6 +489,9 @@ func (propC20) Run(scI interface{}) *Outcome {
 				}
 				if nt == 1 && i == sc.JumpBack {
 					w.AdvanceClock(-3600e9)
+				}
+				if op.Def && skipDef[[2]int{t, i}] {
+					continue
 				}
 				obj := c20Object(hand, op.Obj)
 				isMap := obj != nil && reflect.TypeOf(obj).Kind() == reflect.Map
@@ -526,6 +564,15 @@ func (propC20) Run(scI interface{}) *Outcome {
 					viols[t] = &Violation{Oracle: "reference", Sig: "attribute lookup panicked",
 						Detail: fmt.Sprintf("task %d op #%d: %T . %s panicked: %v", t, i, obj, op.Name, panicked)}
 					return
+				}
+				if op.Render && op.Def {
+					gs, _ := got.(string)
+					if gerr != nil || gs != coldDef[[2]int{t, i}] {
+						viols[t] = &Violation{Oracle: "cold-cache", Sig: "`is defined` on an attribute depends on lookup history",
+							Detail: fmt.Sprintf("task %d op #%d: {{ x.%s is defined }} with x of type %T\n this history: %q err=%v\n empty cache:  %q", t, i, op.Name, obj, gs, gerr, coldDef[[2]int{t, i}])}
+						return
+					}
+					continue
 				}
 				if op.Render {
 					gs, _ := got.(string)
